@@ -479,7 +479,7 @@ fn diff_snapshot(a: &Snapshot, b: &Snapshot) -> Option<(String, String)> {
 fn short(v: &[Val]) -> String {
     let s = format!("{:?}", v);
     if s.len() > 240 {
-        format!("{}…", &s[..240])
+        format!("{}…", s.chars().take(240).collect::<String>())
     } else {
         s
     }
